@@ -24,7 +24,7 @@ from copsim.seams import Poison, sterile
 PROPERTY = 'C19'
 LEVEL = 'exploration'
 TIERS = {
-    'quick': {'runs': 1500, 'wall': 75, 'batch': 8},
+    'quick': {'runs': 1500, 'wall': 150, 'batch': 8},
     'thorough': {'runs': 40000, 'wall': 840, 'batch': 6},
 }
 RULE = ('Each run = one model subject (every univariate family with constructor options, the '
